@@ -258,3 +258,11 @@ def c16(tier, seed):
 
 
 CHECKS.update({"C16": c16})
+
+
+def c19(tier, seed):
+    import c19 as m
+    return m.run(tier, seed)
+
+
+CHECKS.update({"C19": c19})
